@@ -9,6 +9,10 @@ TB = ("Trusted base: the executable reference model and format interpreters unde
 
 FILE_TECH = "session simulation at the stream seams: generated files and history-made charts through read_file/write_file on a simulated file system (real io/codecs layers over a stub device: tiny buffers, short counts, platform defaults, stale destination, EIO/ENOSPC/close errors placed inside the op, retry after failure), judged by an independent reference interpreter of the format; write/read generation chains"
 CLAIMED = {
+ "C02": (FILE_TECH,
+         "Generated .sm texts (1-4 charts of every supported chart type, measures of 4..192 rows incl. 20/28/36, symbols 1 2 3 4 M L F K with well-paired holds and rolls, comment lines, blank lines, 1-6 #BPMS entries on measure lines and on the 1/8-beat grid, any #OFFSET sign, #STOPS absent or empty, CRLF/LF) are installed in the simulated file system and read through tiny buffers, short reads and platform defaults; every chart must come back with its header fields and every object in the column and at the millisecond position (and hold length) obtained by exact rational integration of the file's beats over its #BPMS segments from -#OFFSET, within 1e-6*(1+|t|) ms, and every tempo change of the file must be present at its millisecond position. Injected read errors may only make the call raise; a second file read in the same session must not be influenced by the first.", "§5 C02"),
+ "C03": (FILE_TECH,
+         "Mapsets reach write_file through histories (built on the snap grid in beat space with tempo changes on and off measure lines, read from generated files, converted from osu/Quaver/BMS/O2Jam charts, rated). The written text must be accepted by the reference MSD/.sm parser (every value inside a #TAG:...; , rows as wide as the chart's key count, well-paired holds), denote the same charts, objects and columns with times exact (tempo changes on measure lines) or within 1/96 beat at the local tempo, carry the header fields unchanged, and read back / write again without drift; under tiny buffers, short writes, CRLF platforms, stale longer destination files; injected write errors may only make the call raise and leave the mapset untouched.", "§5 C03"),
  "C06": (FILE_TECH,
          "Generated .qua documents (lanes 1..8, omitted StartTime/Multiplier/Bpm/KeySounds keys, empty sections, hits only, holds only, metadata strings that need YAML quoting, escaped or raw non-ASCII, flow/block style, CRLF) are installed and read; native charts and charts produced by every *ToQua converter from history-made sources are written, read back and written again. A normal return must agree with the reference interpretation: reads exact with the format defaults, written documents load with safe_load, use only the format's keys and value types (no NaN, integer lanes >= 1, list KeySounds) and denote the chart within 1 ms; generations do not drift; injected device errors may only make the call raise.", "§5 C06"),
  "C01": (FILE_TECH,
